@@ -111,6 +111,25 @@ def gen_ops(tier, r):
     for s0, e0 in [(0, 0), (0, 6), (0, 720), (0, 721), (0, 722), (719, 727), (721, 721), (727, 727), (728, 728),
                    (800, 700), (UMAX, UMAX), (UMAX, 0), (1000, 1000), (997, 997)]:
         ops.append(("degenerate", f"seg {s0} {e0} 16"))
+    # 4b. feed boundaries: the interval (hence the last segment's segmentHigh_) ends exactly at / next to the square of a
+    # prime p > 163 while earlier segments left p pending: the loop `while (prime_ <= isqrt(segmentHigh_))` must add p
+    # iff p*p <= stop (PsModel.Feed; the model line carries prime_ after every segment)
+    def is_p(n):
+        if n < 2: return False
+        i = 2
+        while i * i <= n:
+            if n % i == 0: return False
+            i += 1
+        return True
+    for _ in range(6 if q else 60):
+        pp = r.choice([r.randrange(167, 2000), r.randrange(2000, 40000), r.randrange(40000, 999000)])
+        while not is_p(pp):
+            pp += 1
+        for d in ((0,) if q else (-1, 0, 1)):
+            e0 = pp * pp + d
+            nseg = r.choice([1, 2, 3])
+            s0 = max(0, e0 - 30 * 16384 * nseg - r.randrange(0, 30 * 16384))
+            ops.append(("feed-boundary", f"seg {s0} {e0} 16"))
     # 5. random
     for _ in range(20 if q else 200):
         s0 = r.randrange(0, 10**r.randrange(3, 13))
